@@ -5,7 +5,8 @@
 //! `collect_par`.  JSON format of values / functions / steps / sources: see `Engine/Decode.v`.
 use ironbeam::collection::LiftableCombiner;
 use ironbeam::combiners::DistinctSet;
-use ironbeam::{CombineFn, Max, Min, PCollection, Pipeline, Sum, TopK, from_vec, read_jsonl_streaming};
+use ironbeam::{CombineFn, Max, Min, PCollection, Pipeline, Sum, TopK, from_vec, read_jsonl_streaming,
+               side_hashmap, side_vec};
 use serde::{Deserialize, Serialize};
 use serde_json::{Value, json};
 use std::panic::{AssertUnwindSafe, catch_unwind};
@@ -155,6 +156,45 @@ pub enum BFun {
     /// prepend Int(-1) to every chunk (expanding, chunk-sensitive)
     Header,
 }
+/// side-input functions (Lang.sfun / spred)
+#[derive(Clone, Debug, PartialEq)]
+pub enum SFun {
+    AddLen,
+    AddSum,
+}
+#[derive(Clone, Debug, PartialEq)]
+pub enum SPred {
+    In,
+    NotIn,
+    LenGt(usize),
+}
+pub fn sfn(h: &SFun, side: &[Val], v: &Val) -> Val {
+    match (h, v) {
+        (SFun::AddLen, Val::Int(z)) => Val::Int(z + side.len() as i64),
+        (SFun::AddSum, Val::Int(z)) => Val::Int(z + zsum(side)),
+        _ => v.clone(),
+    }
+}
+pub fn spn(q: &SPred, side: &[Val], v: &Val) -> bool {
+    match q {
+        SPred::In => side.contains(v),
+        SPred::NotIn => !side.contains(v),
+        SPred::LenGt(n) => side.len() > *n,
+    }
+}
+/// Lang.side_lookup: the LAST pair with that key wins (HashMap collect), else the default
+pub fn side_lookup(pairs: &[Val], dflt: i64, v: &Val) -> Val {
+    let mut acc = Val::Int(dflt);
+    for kv in pairs {
+        if let Val::Pair(k, x) = kv {
+            if **k == *v {
+                acc = (**x).clone();
+            }
+        }
+    }
+    acc
+}
+
 #[derive(Clone, Debug, PartialEq)]
 pub enum Cid {
     Sum,
@@ -430,6 +470,15 @@ pub enum Step {
     TopKPerKey(usize),
     GroupsToList,
     Join(JoinKind, Vec<Step>, Vec<Val>),
+    /// map_with_side(&side_vec(side), ..)
+    MapWithSide(Vec<Val>, SFun),
+    /// filter_with_side(&side_vec(side), ..): predicate on the whole element
+    FilterWithSide(Vec<Val>, SPred),
+    /// map_with_side_map(&side_hashmap(pairs), lookup or default)
+    MapWithSideMap(Vec<Val>, i64),
+    /// try_map: Ok(f x) when p x, else Err; only as the LAST step of a program (applied by the
+    /// runner, see `run_program`; rows are reported as Some(v) / None)
+    TryMap(EFun, PFun),
 }
 
 #[derive(Clone, Debug, PartialEq)]
@@ -494,6 +543,25 @@ pub fn parse_step(j: &Value) -> R<Step> {
         Some(("distinct_per_key", [])) => Step::DistinctPerKey,
         Some(("top_k_per_key", [k])) => Step::TopKPerKey(nat(k)?),
         Some(("groups_to_list", [])) => Step::GroupsToList,
+        Some(("map_with_side", [sd, h])) => Step::MapWithSide(parse_vals(sd)?, match tag_of(h) {
+            Some(("addlen", [])) => SFun::AddLen,
+            Some(("addsum", [])) => SFun::AddSum,
+            _ => return bad("sfun", h),
+        }),
+        Some(("filter_with_side", [sd, q])) => Step::FilterWithSide(parse_vals(sd)?, match tag_of(q) {
+            Some(("in", [])) => SPred::In,
+            Some(("notin", [])) => SPred::NotIn,
+            Some(("lengt", [n])) => SPred::LenGt(nat(n)?),
+            _ => return bad("spred", q),
+        }),
+        Some(("map_with_side_map", [prs, d])) => {
+            let prs = parse_vals(prs)?;
+            if !prs.iter().all(|v| matches!(v, Val::Pair(..))) {
+                return bad("side map pairs", j);
+            }
+            Step::MapWithSideMap(prs, small(d)?)
+        }
+        Some(("try_map", [f, p])) => Step::TryMap(parse_efun(f)?, parse_pfun(p)?),
         Some(("join", [k, rs, rd])) => {
             let kind = match k.as_str() {
                 Some("inner") => JoinKind::Inner,
@@ -536,6 +604,15 @@ pub fn step_json(s: &Step) -> Value {
         Step::TopKPerKey(k) => json!(["top_k_per_key", k]),
         Step::GroupsToList => json!(["groups_to_list"]),
         Step::Join(k, rs, rd) => json!(["join", k.name(), steps_json(rs), vals_json(rd)]),
+        Step::MapWithSide(sd, h) => json!(["map_with_side", vals_json(sd),
+            match h { SFun::AddLen => json!(["addlen"]), SFun::AddSum => json!(["addsum"]) }]),
+        Step::FilterWithSide(sd, q) => json!(["filter_with_side", vals_json(sd), match q {
+            SPred::In => json!(["in"]),
+            SPred::NotIn => json!(["notin"]),
+            SPred::LenGt(n) => json!(["lengt", n]),
+        }]),
+        Step::MapWithSideMap(prs, d) => json!(["map_with_side_map", vals_json(prs), d]),
+        Step::TryMap(f, p) => json!(["try_map", efun_json(f), pfun_json(p)]),
     }
 }
 pub fn steps_json(s: &[Step]) -> Value {
@@ -603,9 +680,14 @@ pub fn step_shape(s: &Step, t: Shape) -> R<Shape> {
     use Shape::*;
     let need = |ok: bool, out: Shape| if ok { Ok(out) } else { Err(format!("ill-typed step {s:?} on {t:?}")) };
     match s {
-        Step::Map(_) | Step::KeyBy(_) | Step::MapBatches(..) | Step::CombineGlobally(..) if t != U => {
+        Step::Map(_) | Step::KeyBy(_) | Step::MapBatches(..) | Step::CombineGlobally(..)
+        | Step::MapWithSide(..) | Step::MapWithSideMap(..) | Step::TryMap(..) if t != U => {
             need(false, U)
         }
+        Step::MapWithSide(..) | Step::MapWithSideMap(..) => Ok(U),
+        // the element type becomes Result<Val, String>: nothing may follow (see steps_shape)
+        Step::TryMap(..) => Ok(U),
+        Step::FilterWithSide(..) => Ok(t),
         Step::Map(_) => Ok(U),
         Step::KeyBy(_) => Ok(KV),
         Step::MapBatches(..) => Ok(U),
@@ -640,7 +722,15 @@ pub fn step_shape(s: &Step, t: Shape) -> R<Shape> {
     }
 }
 pub fn steps_shape(steps: &[Step], mut t: Shape) -> R<Shape> {
-    for s in steps {
+    for (i, s) in steps.iter().enumerate() {
+        if matches!(s, Step::TryMap(..)) && i + 1 != steps.len() {
+            return Err("try_map is only allowed as the last step".into());
+        }
+        if let Step::Join(_, rs, _) = s {
+            if rs.iter().any(|r| matches!(r, Step::TryMap(..))) {
+                return Err("try_map inside a join side".into());
+            }
+        }
         t = step_shape(s, t)?;
     }
     Ok(t)
@@ -653,6 +743,7 @@ pub fn elementwise_step(s: &Step) -> bool {
         Step::Map(_) | Step::Filter(_) | Step::FlatMap(_) | Step::KeyBy(_) | Step::Unkey
         | Step::MapValues(_) | Step::FilterValues(_) | Step::MapValuesW(_) | Step::FilterValuesW(_)
         | Step::MapValuesBack(_) | Step::GroupsToList => true,
+        Step::MapWithSide(..) | Step::FilterWithSide(..) | Step::MapWithSideMap(..) | Step::TryMap(..) => true,
         Step::MapBatches(_, BFun::Each(_) | BFun::Dup) | Step::MapValuesBatches(_, BFun::Each(_)) => true,
         _ => false,
     }
@@ -703,7 +794,8 @@ fn vo_cost(s: &Step) -> Option<Vec<Option<u8>>> {
         Step::FilterValues(_) | Step::FilterValuesW(_) => vec![Some(1)],
         Step::MapValuesBatches(..) => vec![Some(2)],
         Step::Map(_) | Step::Filter(_) | Step::FlatMap(_) | Step::KeyBy(_) | Step::Unkey
-        | Step::MapBatches(..) | Step::GroupsToList => vec![None],
+        | Step::MapBatches(..) | Step::GroupsToList | Step::MapWithSide(..) | Step::FilterWithSide(..)
+        | Step::MapWithSideMap(..) | Step::TryMap(..) => vec![None],
         _ => return None,
     })
 }
@@ -855,6 +947,15 @@ impl Row for Vec<Val> {
         Val::List(self.clone())
     }
 }
+/// try_map results: Ok(v) -> Some(v), Err -> None (converted after collecting)
+impl Row for Result<Val, String> {
+    fn to_val(&self) -> Val {
+        match self {
+            Ok(v) => Val::Some(Box::new(v.clone())),
+            Err(_) => Val::None,
+        }
+    }
+}
 
 static TICK: AtomicU64 = AtomicU64::new(0);
 /// disturb rayon's schedule a little: every few closure calls yield the worker thread, now and
@@ -876,6 +977,13 @@ fn filt<T: Row>(c: PCollection<T>, p: &PFun) -> PCollection<T> {
     c.filter(move |r: &T| {
         perturb();
         pf(&p, &r.to_val())
+    })
+}
+fn filt_side<T: Row>(c: PCollection<T>, side: &[Val], q: &SPred) -> PCollection<T> {
+    let q = q.clone();
+    c.filter_with_side(&side_vec(side.to_vec()), move |r: &T, s: &[Val]| {
+        perturb();
+        spn(&q, s, &r.to_val())
     })
 }
 fn rep<T: Row>(c: PCollection<T>, n: usize) -> PCollection<T> {
@@ -965,6 +1073,22 @@ pub fn apply_step(p: &Pipeline, c: Coll, s: &Step) -> R<Coll> {
                 ef(&f, x)
             }))
         }
+        (Step::MapWithSide(side, h), U(c)) => {
+            let h = h.clone();
+            U(c.map_with_side(&side_vec(side.clone()), move |x: &Val, s: &[Val]| sfn(&h, s, x)))
+        }
+        (Step::MapWithSideMap(prs, d), U(c)) => {
+            let d = *d;
+            let pairs: Vec<(Val, Val)> = kv_rows(prs);
+            U(c.map_with_side_map(&side_hashmap(pairs), move |x: &Val, m: &std::collections::HashMap<Val, Val>| {
+                m.get(x).cloned().unwrap_or(Val::Int(d))
+            }))
+        }
+        (Step::FilterWithSide(side, q), U(c)) => U(filt_side(c, side, q)),
+        (Step::FilterWithSide(side, q), KV(c)) => KV(filt_side(c, side, q)),
+        (Step::FilterWithSide(side, q), KG(c)) => KG(filt_side(c, side, q)),
+        (Step::FilterWithSide(side, q), KW(c)) => KW(filt_side(c, side, q)),
+        (Step::FilterWithSide(side, q), L(c)) => L(filt_side(c, side, q)),
         (Step::Filter(p), U(c)) => U(filt(c, p)),
         (Step::Filter(p), KV(c)) => KV(filt(c, p)),
         (Step::Filter(p), KG(c)) => KG(filt(c, p)),
@@ -1200,6 +1324,8 @@ pub fn rows_json<T: Row>(r: anyhow::Result<Vec<T>>) -> Value {
                 "terminal_mismatch"
             } else if m.contains("nested CoGroup") {
                 "nested_cogroup"
+            } else if m.contains("element failed") {
+                "fail_fast"
             } else if m.contains("must start with a Source") {
                 "no_source"
             } else if m.contains("unexpected additional source")
@@ -1225,35 +1351,13 @@ fn collect<T: Row>(c: PCollection<T>, mode: Mode) -> Value {
     })
 }
 
-/// Build the real pipeline for (src, steps) and collect it in `mode`, on a watchdog thread:
-/// ["ok", rows] | ["err", class] | ["panic"] | ["hang"] | ["invalid"] (ill-typed program).
-pub fn run_program(src: &Src, steps: &[Step], mode: Mode, dir: &str) -> Value {
-    if src.shape() == Shape::KG && matches!(src, Src::Sharded(..)) {
-        return json!(["invalid"]);
-    }
-    if steps_shape(steps, src.shape()).is_err() {
-        return json!(["invalid"]);
-    }
+/// run `f` on a watchdog thread (5 s => ["hang"]) under catch_unwind (=> ["panic"]); `f` records
+/// the scratch file of a sharded source so that it can be removed afterwards
+fn watchdog(f: impl FnOnce(&mut Option<String>) -> Value + Send + 'static) -> Value {
     let (tx, rx) = mpsc::channel::<(Value, Option<String>)>();
-    let (src, steps, dir) = (src.clone(), steps.to_vec(), dir.to_string());
     std::thread::spawn(move || {
         let mut file = None;
-        let out = catch_unwind(AssertUnwindSafe(|| {
-            let p = Pipeline::default();
-            let built = match build(&p, &src, &steps, &dir) {
-                Ok(b) => b,
-                Err(_) => return json!(["invalid"]),
-            };
-            file = built.file.clone();
-            match built.coll {
-                Coll::U(c) => collect(c, mode),
-                Coll::KV(c) => collect(c, mode),
-                Coll::KG(c) => collect(c, mode),
-                Coll::KW(c) => collect(c, mode),
-                Coll::L(c) => collect(c, mode),
-            }
-        }))
-        .unwrap_or_else(|_| json!(["panic"]));
+        let out = catch_unwind(AssertUnwindSafe(|| f(&mut file))).unwrap_or_else(|_| json!(["panic"]));
         let _ = tx.send((out, file));
     });
     match rx.recv_timeout(Duration::from_secs(5)) {
@@ -1264,6 +1368,151 @@ pub fn run_program(src: &Src, steps: &[Step], mode: Mode, dir: &str) -> Value {
             v
         }
         Err(_) => json!(["hang"]),
+    }
+}
+
+fn collect_coll(c: Coll, mode: Mode) -> Value {
+    match c {
+        Coll::U(c) => collect(c, mode),
+        Coll::KV(c) => collect(c, mode),
+        Coll::KG(c) => collect(c, mode),
+        Coll::KW(c) => collect(c, mode),
+        Coll::L(c) => collect(c, mode),
+    }
+}
+pub fn clone_coll(c: &Coll) -> Coll {
+    match c {
+        Coll::U(c) => Coll::U(c.clone()),
+        Coll::KV(c) => Coll::KV(c.clone()),
+        Coll::KG(c) => Coll::KG(c.clone()),
+        Coll::KW(c) => Coll::KW(c.clone()),
+        Coll::L(c) => Coll::L(c.clone()),
+    }
+}
+
+fn valid_program(src: &Src, steps: &[Step]) -> bool {
+    !(src.shape() == Shape::KG && matches!(src, Src::Sharded(..))) && steps_shape(steps, src.shape()).is_ok()
+}
+
+/// a trailing try_map is applied here (its element type is Result<Val, String>, which is not one
+/// of the `Coll` shapes); `fail_fast` selects `collect_fail_fast` instead of the plain collect
+fn finish_program(p: &Pipeline, src: &Src, steps: &[Step], dir: &str, file: &mut Option<String>,
+                  mode: Mode, fail_fast: bool) -> Value {
+    let (body, last) = match steps.last() {
+        Some(Step::TryMap(f, pr)) => (&steps[..steps.len() - 1], Some((f.clone(), pr.clone()))),
+        _ => (steps, None),
+    };
+    let built = match build(p, src, body, dir) {
+        Ok(b) => b,
+        Err(_) => return json!(["invalid"]),
+    };
+    *file = built.file.clone();
+    match (last, built.coll) {
+        (None, c) if !fail_fast => collect_coll(c, mode),
+        (Some((f, pr)), Coll::U(c)) => {
+            let r = c.try_map(move |x: &Val| {
+                perturb();
+                if pf(&pr, x) { Ok(ef(&f, x)) } else { Err("e".to_string()) }
+            });
+            if fail_fast { rows_json(r.collect_fail_fast()) } else { collect(r, mode) }
+        }
+        _ => json!(["invalid"]),
+    }
+}
+
+/// Build the real pipeline for (src, steps) and collect it in `mode`, on a watchdog thread:
+/// ["ok", rows] | ["err", class] | ["panic"] | ["hang"] | ["invalid"] (ill-typed program).
+pub fn run_program(src: &Src, steps: &[Step], mode: Mode, dir: &str) -> Value {
+    if !valid_program(src, steps) {
+        return json!(["invalid"]);
+    }
+    let (src, steps, dir) = (src.clone(), steps.to_vec(), dir.to_string());
+    watchdog(move |file| finish_program(&Pipeline::default(), &src, &steps, &dir, file, mode, false))
+}
+/// a program ending in try_map, through `collect_fail_fast`: ["ok", payloads] | ["err","fail_fast"]
+pub fn run_failfast(src: &Src, steps: &[Step], dir: &str) -> Value {
+    if !valid_program(src, steps) || !matches!(steps.last(), Some(Step::TryMap(..))) {
+        return json!(["invalid"]);
+    }
+    let (src, steps, dir) = (src.clone(), steps.to_vec(), dir.to_string());
+    watchdog(move |file| finish_program(&Pipeline::default(), &src, &steps, &dir, file, Mode::Seq, true))
+}
+
+/// Branching: base = src + prefix; A = base + a; B = base + b, all three handles built FIRST in
+/// one Pipeline (A before B), then for every mode the handles are collected in the order base,
+/// B, A.  Result: one [base, B, A] outcome triple per mode.
+pub fn run_branch(src: &Src, prefix: &[Step], a: &[Step], b: &[Step], modes: &[Mode], dir: &str) -> Value {
+    let full = |x: &[Step]| [prefix, x].concat();
+    let no_try = |x: &[Step]| !x.iter().any(|s| matches!(s, Step::TryMap(..)));
+    if !valid_program(src, &full(a)) || !valid_program(src, &full(b)) || !no_try(&full(a)) || !no_try(b) {
+        return json!(["invalid"]);
+    }
+    let (src, prefix, a, b, modes, dir) =
+        (src.clone(), prefix.to_vec(), a.to_vec(), b.to_vec(), modes.to_vec(), dir.to_string());
+    watchdog(move |file| {
+        let p = Pipeline::default();
+        let base = match build(&p, &src, &prefix, &dir) {
+            Ok(x) => x,
+            Err(_) => return json!(["invalid"]),
+        };
+        *file = base.file.clone();
+        let (ha, hb) = match (apply_steps(&p, clone_coll(&base.coll), &a), apply_steps(&p, clone_coll(&base.coll), &b)) {
+            (Ok(x), Ok(y)) => (x, y),
+            _ => return json!(["invalid"]),
+        };
+        // every collect on its own catch_unwind: a panic in one handle must not hide the others
+        let one = |c: &Coll, m: Mode| {
+            let c = clone_coll(c);
+            catch_unwind(AssertUnwindSafe(move || collect_coll(c, m))).unwrap_or_else(|_| json!(["panic"]))
+        };
+        Value::Array(
+            modes
+                .iter()
+                .map(|m| json!([one(&base.coll, *m), one(&hb, *m), one(&ha, *m)]))
+                .collect(),
+        )
+    })
+}
+
+fn parse_branch(input: &Value) -> R<(Src, Vec<Step>, Vec<Step>, Vec<Step>, Mode)> {
+    let x = input.as_array().ok_or("input")?;
+    if x.len() != 5 {
+        return Err("input arity".into());
+    }
+    Ok((parse_src(&x[0])?, parse_steps(&x[1])?, parse_steps(&x[2])?, parse_steps(&x[3])?, parse_mode(&x[4])?))
+}
+/// kind "branch": in = [src, prefix, a, b, partitions_or_null] -> [base, B, A] outcomes
+pub fn run_branch_case(input: &Value, dir: &str) -> Value {
+    match parse_branch(input) {
+        Ok((src, pre, a, b, mode)) => {
+            let v = run_branch(&src, &pre, &a, &b, &[mode], dir);
+            match v.as_array() {
+                Some(x) if x.len() == 1 && x[0].is_array() => x[0].clone(),
+                _ => v,
+            }
+        }
+        Err(_) => json!(["invalid"]),
+    }
+}
+/// kind "branchpair" (C01): in = [src, prefix, a, b, partitions] -> [[seq triple], [par triple]]
+pub fn run_branchpair_case(input: &Value, dir: &str) -> Value {
+    match parse_branch(input) {
+        Ok((src, pre, a, b, Mode::Par(n))) => run_branch(&src, &pre, &a, &b, &[Mode::Seq, Mode::Par(n)], dir),
+        _ => json!(["invalid"]),
+    }
+}
+/// kind "failfast": in = [src, steps (ending in try_map), null] -> collect_fail_fast outcome
+pub fn run_failfast_case(input: &Value, dir: &str) -> Value {
+    let parsed = (|| -> R<(Src, Vec<Step>)> {
+        let a = input.as_array().ok_or("input")?;
+        if a.len() != 3 || !a[2].is_null() {
+            return Err("input".into());
+        }
+        Ok((parse_src(&a[0])?, parse_steps(&a[1])?))
+    })();
+    match parsed {
+        Ok((src, steps)) => run_failfast(&src, &steps, dir),
+        Err(_) => json!(["invalid"]),
     }
 }
 
@@ -1451,6 +1700,10 @@ pub fn d_step(s: &Step, rows: &[Val]) -> Vec<Val> {
             })
             .collect(),
         Step::Join(kind, rs, rd) => d_join(*kind, rows, &d_steps(rs, rd)),
+        Step::MapWithSide(side, h) => rows.iter().map(|x| sfn(h, side, x)).collect(),
+        Step::FilterWithSide(side, q) => rows.iter().filter(|x| spn(q, side, x)).cloned().collect(),
+        Step::MapWithSideMap(prs, d) => rows.iter().map(|x| side_lookup(prs, *d, x)).collect(),
+        Step::TryMap(f, p) => rows.iter().map(|x| if pf(p, x) { some(ef(f, x)) } else { Val::None }).collect(),
     }
 }
 pub fn d_steps(steps: &[Step], rows: &[Val]) -> Vec<Val> {
@@ -1548,15 +1801,17 @@ pub struct GenOpts {
     pub empty_minmax: bool,
     /// allow the chunk-sensitive expanding batch function `header` (C02: sequential runs only)
     pub header: bool,
+    /// side-input steps (map_with_side, filter_with_side, map_with_side_map)
+    pub side_inputs: bool,
 }
 impl GenOpts {
     pub fn elementwise() -> Self {
         GenOpts { barriers: false, joins: false, odd_batches: false, retype: true,
-                  reorder_class: false, empty_minmax: false, header: false }
+                  reorder_class: false, empty_minmax: false, header: false, side_inputs: false }
     }
     pub fn all() -> Self {
         GenOpts { barriers: true, joins: true, odd_batches: false, retype: true,
-                  reorder_class: false, empty_minmax: false, header: false }
+                  reorder_class: false, empty_minmax: false, header: false, side_inputs: false }
     }
 }
 
@@ -1749,11 +2004,70 @@ pub fn gen_kv_rows(rng: &mut SplitMix64, n: usize, nkeys: i64) -> Vec<Val> {
     (0..n).map(|_| pair(Val::Int(rng.range(0, nkeys.max(1) - 1)), Val::Int(rng.range(-20, 20)))).collect()
 }
 
+/// a side vector: drawn from the current rows (so that membership tests hit), with duplicates,
+/// sometimes foreign values, one time in five EMPTY
+pub fn gen_side(rng: &mut SplitMix64, rows: &[Val]) -> Vec<Val> {
+    if rng.chance(1, 5) {
+        return vec![];
+    }
+    let n = rng.range(1, 6) as usize;
+    (0..n)
+        .map(|_| {
+            if !rows.is_empty() && rng.chance(3, 4) {
+                rows[rng.below(rows.len() as u64) as usize].clone()
+            } else {
+                Val::Int(rng.range(-5, 30))
+            }
+        })
+        .collect()
+}
+/// a random side-input step for the current state
+pub fn gen_side_step(rng: &mut SplitMix64, sim: &Sim) -> Step {
+    // membership tests compare whole values: never draw side values from rows that contain lists
+    // of arbitrary (map iteration) order
+    let pool: &[Val] = if sim.comparable() { &sim.rows } else { &[] };
+    let side = gen_side(rng, pool);
+    let pred = |rng: &mut SplitMix64, n: usize| match rng.below(5) {
+        0 | 1 => SPred::In,
+        2 | 3 => SPred::NotIn,
+        _ => SPred::LenGt((n as i64 + rng.range(-1, 1)).max(0) as usize),
+    };
+    if sim.shape != Shape::U {
+        let q = pred(rng, side.len());
+        return Step::FilterWithSide(side, q);
+    }
+    match rng.below(4) {
+        0 => Step::MapWithSide(side, if rng.chance(1, 2) { SFun::AddLen } else { SFun::AddSum }),
+        1 | 2 => {
+            let q = pred(rng, side.len());
+            Step::FilterWithSide(side, q)
+        }
+        _ => {
+            // lookup table keyed by current rows; keys repeat (the last pair wins)
+            let keys = gen_side(rng, pool);
+            let mut pairs: Vec<Val> = keys.iter().map(|k| pair(k.clone(), Val::Int(rng.range(0, 9)))).collect();
+            if let Some(first) = keys.first() {
+                if rng.chance(1, 2) {
+                    pairs.push(pair(first.clone(), Val::Int(rng.range(10, 19))));
+                }
+            }
+            Step::MapWithSideMap(pairs, rng.range(-3, 3))
+        }
+    }
+}
+
 /// one random well-typed step for the current state (None: nothing suitable found)
 pub fn gen_step(rng: &mut SplitMix64, sim: &Sim, o: &GenOpts, parts: usize) -> Option<(Step, Sim)> {
     for _ in 0..12 {
         let sample = sim.sample();
         let vsample = sample.map(vsnd);
+        if o.side_inputs && rng.chance(1, 7) {
+            let s = gen_side_step(rng, sim);
+            if let Some(next) = sim.step(&s) {
+                return Some((s, next));
+            }
+            continue;
+        }
         let s = match sim.shape {
             Shape::U => match rng.below(if o.barriers { 13 } else { 9 }) {
                 0 | 1 => Step::Map(gen_efun(rng, sample, 0)),
@@ -2214,4 +2528,237 @@ pub fn join_side_barrier_cases(rng: &mut SplitMix64, full: bool) -> Vec<(Src, Ve
         }
     }
     out
+}
+
+// ------------------------------------------------------------------ emptied-partition sweeps
+
+/// Element-wise steps on an unkeyed source of the integers 0..len that leave a chosen set of the
+/// `split(parts)` partitions EMPTY: (a) exactly the first, (b) exactly the last, (c) a middle one,
+/// (d) all but one, (e) all.  Built from the chunking (chunk = ceil(len/parts)): the value is
+/// rotated by `map(x -> (x - s) mod len)` and cut by `filter(lt t)`.  `desc` mirrors the kept
+/// values (x -> len - x) so that the minimum / maximum lives on the other end.
+pub fn emptied_patterns(len: usize, parts: usize, desc: bool, further: bool)
+    -> Vec<(&'static str, Vec<Step>)> {
+    let chunk = len.div_ceil(parts.max(1)).max(1);
+    let np = len.div_ceil(chunk);
+    let size = |j: usize| ((j + 1) * chunk).min(len) - j * chunk;
+    let l = len as i64;
+    let mut specs: Vec<(&'static str, usize, usize)> = vec![]; // (name, shift s, keep t)
+    if np >= 2 {
+        specs.push(("empty_first", chunk, len - chunk));
+        specs.push(("empty_last", 0, (np - 1) * chunk));
+        if np >= 3 {
+            let j = 1 + (len + parts) % (np - 2);
+            specs.push(("empty_middle", (j + 1) * chunk % len, len - size(j)));
+        }
+        let j = (len + parts) % np;
+        specs.push(("keep_one", j * chunk, size(j)));
+    }
+    specs.push(("empty_all", 0, 0));
+    specs
+        .into_iter()
+        .map(|(name, s, t)| {
+            let mut st = vec![];
+            if s != 0 || further {
+                st.push(Step::Map(EFun::Comp(Box::new(EFun::Add(-(s as i64))), Box::new(EFun::Mod(l.max(1))))));
+            }
+            st.push(Step::Filter(PFun::Lt(t as i64)));
+            if desc {
+                st.push(Step::Map(EFun::Comp(Box::new(EFun::Mul(-1)), Box::new(EFun::Add(l)))));
+            }
+            if further {
+                st.push(Step::Map(EFun::Add(1)));
+                st.push(Step::Filter(PFun::True));
+            }
+            (name, st)
+        })
+        .collect()
+}
+
+fn index_src(len: usize) -> Src {
+    Src::Vec(Shape::U, (0..len as i64).map(Val::Int).collect())
+}
+
+/// (source, steps, partitions, pattern): a join (all four kinds) one of whose sides - LEFT and
+/// RIGHT - has no barrier (stays multi-partition) and has some of its partitions emptied by an
+/// upstream filter; the other side is plain.  Partitions 2..=5, sides >= 3 x partitions rows.
+pub fn emptied_join_cases(full: bool) -> Vec<(Src, Vec<Step>, usize, &'static str)> {
+    let kinds = [JoinKind::Inner, JoinKind::Left, JoinKind::Right, JoinKind::Full];
+    let mut out = vec![];
+    let mut n = 0usize;
+    for parts in 2..=5usize {
+        for extra in if full { vec![0usize, 1, 2] } else { vec![(parts + 1) % 3] } {
+            let len = 3 * parts + extra;
+            for kind in kinds {
+                for left_side in [true, false] {
+                    for further in if full { vec![false, true] } else { vec![n % 2 == 0] } {
+                        for (name, filt) in emptied_patterns(len, parts, false, further) {
+                            n += 1;
+                            let plain: Vec<Val> =
+                                (0..len + 1).map(|i| pair(Val::Int((i % 3) as i64), Val::Int(100 + i as i64))).collect();
+                            let key = Step::KeyBy(EFun::Mod(3));
+                            if left_side {
+                                let steps = [filt, vec![key, Step::Join(kind, vec![], plain)]].concat();
+                                out.push((index_src(len), steps, parts, name));
+                            } else {
+                                let rdata: Vec<Val> =
+                                    (0..len as i64).map(|i| pair(Val::Int(i % 3), Val::Int(i))).collect();
+                                let rsteps = [vec![Step::Unkey, Step::Map(EFun::Snd)], filt, vec![key]].concat();
+                                out.push((Src::Vec(Shape::KV, plain), vec![Step::Join(kind, rsteps, rdata)], parts, name));
+                            }
+                        }
+                    }
+                }
+            }
+        }
+    }
+    out
+}
+
+/// (source, steps, partitions, pattern): the emptied-partition patterns in front of every barrier
+/// kind on the main chain.  Min and Max appear with both orientations of the data (extreme in an
+/// early or in a late partition), lifted and unlifted, with every fan-out.
+pub fn emptied_barrier_cases(full: bool) -> Vec<(Src, Vec<Step>, usize, &'static str)> {
+    let key = || Step::KeyBy(EFun::Mod(3));
+    let mut out = vec![];
+    let mut n = 0usize;
+    for parts in 2..=5usize {
+        let len = 3 * parts + (parts % 3);
+        let mut fs: Vec<Option<usize>> = vec![None, Some(0), Some(1), Some(2), Some(3)];
+        if !fs.contains(&Some(parts + 1)) {
+            fs.push(Some(parts + 1));
+        }
+        let npat = emptied_patterns(len, parts, false, false).len();
+        for pi in 0..npat {
+            let pat = |desc: bool, further: bool| emptied_patterns(len, parts, desc, further)[pi].clone();
+            let mut push = |desc: bool, tail: Vec<Step>, n: usize| {
+                let (name, filt) = pat(desc, n % 3 == 0);
+                out.push((index_src(len), [filt, tail].concat(), parts, name));
+            };
+            // keyed barriers
+            let mut keyed: Vec<(bool, Vec<Step>)> = vec![
+                (false, vec![key(), Step::GroupByKey]),
+                (false, vec![key(), Step::CombineValues(Cid::Min)]),
+                (true, vec![key(), Step::CombineValues(Cid::Max)]),
+                (true, vec![key(), Step::GroupByKey, Step::CombineValuesLifted(Cid::Min)]),
+                (false, vec![key(), Step::CombineValues(Cid::Sum)]),
+                (false, vec![Step::Distinct]),
+                (false, vec![key(), Step::TopKPerKey(2)]),
+            ];
+            if full {
+                keyed.extend(vec![
+                    (true, vec![key(), Step::CombineValues(Cid::Min)]),
+                    (false, vec![key(), Step::CombineValues(Cid::Max)]),
+                    (false, vec![key(), Step::GroupByKey, Step::CombineValuesLifted(Cid::Max)]),
+                    (false, vec![key(), Step::GroupByKey, Step::CombineValuesLifted(Cid::Count)]),
+                    (false, vec![key(), Step::CombineValues(Cid::TopK(2)), Step::GroupsToList]),
+                    (false, vec![key(), Step::DistinctPerKey]),
+                ]);
+            }
+            for (desc, tail) in keyed {
+                n += 1;
+                push(desc, tail, n);
+            }
+            // global combines: every fan-out; (combiner, orientation, lifted) rotate (quick) / all (full)
+            let variants: Vec<(Cid, bool)> = vec![
+                (Cid::Min, false), (Cid::Max, true), (Cid::Min, true), (Cid::Max, false),
+                (Cid::Sum, false), (Cid::Count, false),
+            ];
+            for (fi, f) in fs.iter().enumerate() {
+                for (vi, (c, desc)) in variants.iter().enumerate() {
+                    for lifted in [false, true] {
+                        if !full && (vi != (pi + fi + parts) % variants.len() || lifted != ((pi + fi) % 2 == 0)) {
+                            // quick: one variant per (pattern, fan-out, partitions); Min / Max get two
+                            if !(matches!(c, Cid::Min | Cid::Max)
+                                && vi == (pi + fi + parts + 2) % 4
+                                && lifted == ((pi + fi) % 2 == 1))
+                            {
+                                continue;
+                            }
+                        }
+                        n += 1;
+                        push(*desc, vec![Step::CombineGlobally(c.clone(), lifted, *f)], n);
+                    }
+                }
+            }
+        }
+    }
+    out
+}
+
+/// (source, steps, partitions): inputs long enough for MORE THAN 64 effective partitions
+/// (len in {130, 200, 500} x partitions in {65, 100, 128, len}), keys cycling so that every key
+/// spans every partition, in front of group_by_key / combine_values / combine_globally / distinct.
+pub fn many_partition_cases(full: bool) -> Vec<(Src, Vec<Step>, usize)> {
+    let mut out = vec![];
+    let combos: Vec<(usize, usize)> = if full {
+        let mut v = vec![];
+        for len in [130usize, 200, 500] {
+            for parts in [65usize, 100, 128, len] {
+                v.push((len, parts));
+            }
+        }
+        v
+    } else {
+        vec![(130, 65), (200, 128), (200, 200), (500, 100)]
+    };
+    for (ci, (len, parts)) in combos.into_iter().enumerate() {
+        let kv: Vec<Val> = (0..len as i64).map(|i| pair(Val::Int(i % 7), Val::Int(i))).collect();
+        let u: Vec<Val> = (0..len as i64).map(|i| Val::Int(i % 11)).collect();
+        let mut progs: Vec<(Shape, Vec<Step>)> = vec![
+            (Shape::KV, vec![Step::GroupByKey]),
+            (Shape::KV, vec![Step::CombineValues(Cid::Sum)]),
+            (Shape::U, vec![Step::CombineGlobally(Cid::Sum, ci % 2 == 0, [None, Some(2), Some(64), Some(3)][ci % 4])]),
+            (Shape::U, vec![Step::Distinct]),
+        ];
+        if full {
+            progs.extend(vec![
+                (Shape::KV, vec![Step::GroupByKey, Step::CombineValuesLifted(Cid::Count)]),
+                (Shape::KV, vec![Step::CombineValues(Cid::Min)]),
+                (Shape::KV, vec![Step::TopKPerKey(2)]),
+                (Shape::KV, vec![Step::DistinctPerKey]),
+                (Shape::U, vec![Step::CombineGlobally(Cid::Count, true, Some(65))]),
+                (Shape::U, vec![Step::CombineGlobally(Cid::TopK(3), false, Some(0))]),
+                (Shape::KV, vec![Step::Join(JoinKind::Inner, vec![], vec![pair(Val::Int(1), Val::Int(0))])]),
+            ]);
+        }
+        for (shape, steps) in progs {
+            let data = if shape == Shape::KV { kv.clone() } else { u.clone() };
+            out.push((Src::Vec(shape, data), steps, parts));
+        }
+    }
+    out
+}
+
+/// kind "branch" / "branchpair" input
+pub fn branch_input(src: &Src, prefix: &[Step], a: &[Step], b: &[Step], mode: Mode) -> Value {
+    json!([src_json(src), steps_json(prefix), steps_json(a), steps_json(b),
+           match mode { Mode::Seq => Value::Null, Mode::Par(n) => json!(n) }])
+}
+/// a random branching program: a prefix and two independent continuations from its state;
+/// None when one of the three programs falls into the reorder class (unless allowed)
+pub fn gen_branch(rng: &mut SplitMix64, src: &Src, o: &GenOpts, parts: usize)
+    -> Option<(Vec<Step>, Vec<Step>, Vec<Step>)> {
+    let npre = rng.below(5) as usize;
+    let (prefix, sim) = gen_program(rng, src, o, npre, parts);
+    let cont = |rng: &mut SplitMix64| {
+        let mut steps = vec![];
+        let mut st = sim.clone();
+        for _ in 0..rng.range(1, 4) {
+            let Some((s, next)) = gen_step(rng, &st, o, parts) else { break };
+            steps.push(s);
+            st = next;
+        }
+        steps
+    };
+    let a = cont(rng);
+    let b = cont(rng);
+    if a.is_empty() || b.is_empty() {
+        return None;
+    }
+    let full = |x: &[Step]| [prefix.clone(), x.to_vec()].concat();
+    if !o.reorder_class && (reorder_changes(&full(&a)) || reorder_changes(&full(&b)) || reorder_changes(&prefix)) {
+        return None;
+    }
+    Some((prefix, a, b))
 }
